@@ -2,7 +2,10 @@
 // is evaluated on the REAL CgroupPath / Fs::glob / PluginArgParser; any difference is a violation.
 // usage: path_replay <cases.ndjson> <result.json>
 #include <json/json.h>
+#include <sys/socket.h>
 #include <sys/stat.h>
+#include <sys/un.h>
+#include <cstring>
 #include <unistd.h>
 #include <fstream>
 #include <iostream>
@@ -104,7 +107,18 @@ int main(int argc, char** argv) {
           auto pos = rel.rfind('/');
           std::string dir = pos == std::string::npos ? "" : rel.substr(0, pos);
           if (!dir.empty()) fs->mkcg(dir);
-          fs->write(dir, pos == std::string::npos ? rel : rel.substr(pos + 1), "x");
+          // "a file" is anything that is not a directory: some are unix sockets or FIFOs (whose st_mode shares bits with
+          // S_IFDIR) instead of regular files
+          std::string base = pos == std::string::npos ? rel : rel.substr(pos + 1);
+          std::string abs = fs->root() + "/" + rel;
+          size_t h = std::hash<std::string>{}(rel) % 4;
+          if (h == 0 && abs.size() < 100) {
+            int sfd = ::socket(AF_UNIX, SOCK_STREAM, 0);
+            sockaddr_un a{}; a.sun_family = AF_UNIX; strncpy(a.sun_path, abs.c_str(), sizeof(a.sun_path) - 1);
+            if (sfd < 0 || ::bind(sfd, (sockaddr*)&a, sizeof a) != 0) fs->write(dir, base, "x");
+            if (sfd >= 0) ::close(sfd);
+          } else if (h == 1) { if (::mkfifo(abs.c_str(), 0644) != 0) fs->write(dir, base, "x"); }
+          else fs->write(dir, base, "x");
         }
         // a sibling of the fs root whose name extends the root's name
         mkdir((fs->root() + "z").c_str(), 0755);
